@@ -136,6 +136,8 @@ WCRULES = [(r'(?:auto|__auto_type) va = view\(\);', 'struct iovector_view va = O
 WRAPC = [('front_continuous', r'void\* extract_front_continuous\(size_t bytes\)\s*(?=\{\s*auto va = view\(\);)', 'true'),
          ('back_continuous', r'void\* extract_back_continuous\(size_t bytes\)\s*(?=\{\s*auto va = view\(\);)', 'false')]
 TARGETS += [Target('own_update', HDR, r'void update\(iovector_view va\)\s*(?=\{)', rules=[WF])] + [Target('wc_' + n, HDR, loc, rules=WCRULES, common=True) for (n, loc, f) in WRAPC]
+TARGETS += [Target('truncate', HDR, r'size_t truncate\(size_t size\)\s*(?=\{)', common=True, rules=[
+    (r'(?<![\w>.])sum\(\)', 'OWN_sum(this)', 1), (r'(?<![\w>.])shrink_to\(', 'OWN_shrink_to(this, ', 1), (r'(?<![\w>.])push_back\(', 'OWN_push_back(this, ', 1)])]
 def _mk_wrapc(n, f):
     def gen(lowered):
         t = open(__file__.rsplit('/', 1)[0] + '/wrapc.c.in').read()
@@ -153,6 +155,7 @@ for (_n, _loc, _a, _k) in WRAPPERS:
     UNITS['wrap_%s.c' % _n] = _mk_wrap(_n, _a, _k)
 for (_n, _loc, _f) in WRAPC:
     UNITS['wrapc_%s.c' % _n] = _mk_wrapc(_n, _f)
+UNITS['trunc.c'] = 'trunc.c.in'
 # element bases are abstract addresses (the buffers they describe are not modelled as objects), so pointer-overflow
 # checks on address arithmetic over them are off; array bounds / dereference / integer checks stay on
 CHECKS = ['--no-standard-checks', '--bounds-check', '--pointer-check', '--div-by-zero-check', '--signed-overflow-check',
@@ -188,6 +191,7 @@ PROOFS = [
           bound='at most 16 destination and 16 source elements (input-size bound), any lengths, 0-element destination views included'),
 ] + [Proof('wrapper/%s' % _n, 'wrap_%s.c' % _n, 'h_wrapper', kind='L', min_obligations=4, checks=CHECKS) for (_n, _loc, _a, _k) in WRAPPERS] + [
     Proof('wrapper/%s' % _n, 'wrapc_%s.c' % _n, 'h_wrapper', kind='L', min_obligations=4, checks=CHECKS) for (_n, _loc, _f) in WRAPC] + [
+    Proof('wrapper/truncate', 'trunc.c', 'h_truncate', kind='L', min_obligations=3, checks=CHECKS),
     Proof('iov_iterator/ctor', 'iov.c', 'h_it_ctor', kind='L', min_obligations=4, **CV),
     Proof('lemma/pre_mono', 'iov.c', 'lemma_pre_mono', kind='L', min_obligations=3, **CV),
 ]
